@@ -288,6 +288,12 @@ def _segment(draw, o, groups, chans, counters, version, si):
         extra_paths = ['/'] + [make_path(g) for g in groups] + \
                       [make_path(g, c) for (g, c, t, tag) in chans if make_path(g, c) not in data]
         chosen = draw(st.lists(st.sampled_from(extra_paths), max_size=4, unique=True))
+        if o.get('stopped_first'):
+            # channels that are not active in this segment are all re-listed as "no data", ahead of the active ones
+            chosen = [p for p in extra_paths if p.count("'/'") or p.count("/'") == 2]
+            for p in reversed(chosen):
+                entries.insert(0, {'path': p, 'hdr': 'nodata'})
+            chosen = []
         for p in chosen:
             pos = draw(st.integers(0, len(entries)))
             entries.insert(pos, {'path': p, 'hdr': 'nodata'})
